@@ -98,14 +98,15 @@ static Arena gA;
 class PlaceMM
 {
 public:
-	explicit PlaceMM(int id_ = 0) noexcept : id(id_) {}
-	PlaceMM(PlaceMM&& o) noexcept : id(o.id) {}
-	PlaceMM(const PlaceMM& o) noexcept : id(o.id) {}
+	explicit PlaceMM(int id_ = 0, int tag_ = 0) noexcept : tag(tag_), id(id_) {}
+	PlaceMM(PlaceMM&& o) noexcept : tag(o.tag), id(o.id) {}
+	PlaceMM(const PlaceMM& o) noexcept : tag(o.tag), id(o.id) {}
 	~PlaceMM() noexcept {}
 	PlaceMM& operator=(const PlaceMM&) = delete;
 	void* Allocate(size_t size) { return gA.allocate(size, id); }
 	void Deallocate(void* ptr, size_t size) noexcept { gA.deallocate(ptr, size, id); }
 	bool IsEqual(const PlaceMM& o) const noexcept { return id == o.id; }
+	int tag;    // object identity NOT seen by IsEqual (two equal managers need not be the same object: fix fc18ee9)
 	int id;     // identity: two managers with different ids are NOT interchangeable (Swap must move them with the pool data)
 };
 
@@ -767,10 +768,11 @@ int main()
 			{
 				long long m, a, dm, da; is >> m >> a >> dm >> da;
 				typedef Pool<2, 0> P;
-				P::Data d1{PlaceMM(int(m))}; d1.allocCount = size_t(a);
-				P::Data d2{PlaceMM(int(dm))}; d2.allocCount = size_t(da);
+				// manager value m = 100 * id + tag: IsEqual compares the id only, the tag tells the two OBJECTS apart
+				P::Data d1{PlaceMM(int(m / 100), int(m % 100))}; d1.allocCount = size_t(a);
+				P::Data d2{PlaceMM(int(dm / 100), int(dm % 100))}; d2.allocCount = size_t(da);
 				d1.Swap(d2);
-				out = std::to_string(d1.id) + " " + std::to_string(d1.allocCount) + " " + std::to_string(d2.id) + " " + std::to_string(d2.allocCount);
+				out = std::to_string(d1.id * 100 + d1.tag) + " " + std::to_string(d1.allocCount) + " " + std::to_string(d2.id * 100 + d2.tag) + " " + std::to_string(d2.allocCount);
 			}
 			else if (cmd == "gba") { ull bs, ma; is >> bs >> ma; out = std::to_string(ull(MemPoolConst::GetBlockAlignment(size_t(bs), size_t(ma)))); }
 			else if (cmd == "gbp")		// MemPoolParams<>(blockSize): the default alignment is GetBlockAlignment(blockSize) with the default maxAlignment
